@@ -255,9 +255,16 @@ class GenList:
 
     def __init__(self, items):
         self.items = list(items)
+        self.pos = 0            # next(g) consumes from here; a plain `for` / list(g) sees the remaining items
 
     def __iter__(self):
-        return iter(self.items)
+        return self
+
+    def __next__(self):
+        if self.pos >= len(self.items):
+            raise StopIteration
+        self.pos += 1
+        return self.items[self.pos - 1]
 
     def kvc_isinstance(self, interp, cls):
         import types
@@ -1504,7 +1511,7 @@ BUILTIN_ENV = {
     'enumerate': enumerate, 'any': any, 'all': all, 'sorted': sorted, 'sum': sum, 'min': min,
     'max': max, 'range': range, 'reversed': reversed, 'hasattr': hasattr, 'getattr': getattr,
     'set': set, 'callable': callable, 'bool': bool, 'float': float, 'object': object, 'type': type,
-    'True': True, 'False': False, 'None': None,
+    'True': True, 'False': False, 'None': None, 'next': next,
     'ValueError': ValueError, 'TypeError': TypeError, 'KeyError': KeyError, 'IndexError': IndexError,
     'AttributeError': AttributeError, 'ZeroDivisionError': ZeroDivisionError,
     'NotImplementedError': NotImplementedError, 'Exception': Exception, 'AssertionError': AssertionError,
